@@ -138,6 +138,11 @@ def differential(job, wd, seed, count):
             diff += 1
             if first is None: first = (a, b)
     res.update(cases_identical=same, cases_differ=diff, cases_beyond_model_capacity=capped, t=round(t1 + t2, 2))
+    ins = []
+    for a in l1:
+        m = re.match(r'in=\[([^\]]*)\] out=\[([^\]]*)\] ok', a)
+        if m and m.group(1): ins.append(([int(x) for x in m.group(1).split(',')], m.group(2)))
+    res['_inputs'] = ins
     if len(l1) != len(l2) and not viol:
         raise Inconclusive('differential runs produced different numbers of cases (%d vs %d)' % (len(l1), len(l2)))
     if diff and not viol:
@@ -147,15 +152,33 @@ def differential(job, wd, seed, count):
     return res
 
 
-def loops_unwindset(job, wd, cfiles, dfl):
-    rules = job.get('unwind_rules', [])
+def loop_names(cfiles, dfl):
     rc, out, t = sh(['cbmc'] + cfiles + dfl + ['--show-loops'], timeout=300)
-    names = re.findall(r'^Loop ([^\s:]+):', out, re.M)
-    us = []
-    for nm in dict.fromkeys(names):
-        for rx, bound in rules:
-            if re.search(rx, nm): us.append('%s:%d' % (nm, bound)); break
-    return us, len(set(names))
+    return list(dict.fromkeys(re.findall(r'^Loop ([^\s:]+):', out, re.M)))
+
+
+def profile_bounds(job, wd, inputs, cfiles, inc, dfl):
+    """Loop-bound HINTS from a few concrete runs of the same harness under cbmc (no verdict is taken from them: every bound
+    used later is checked by an unwinding assertion in the symbolic run and raised if it fails)."""
+    # pick a spread of samples: distinct outputs first
+    seen = {}; picks = []
+    for vals, outs in inputs:
+        if outs not in seen: seen[outs] = 1; picks.append(vals)
+        if len(picks) >= job.get('profile_samples', 6): break
+    mx = {}
+    def one(vals):
+        cmd = ['cbmc'] + cfiles + inc + dfl + ['-DVERIF_FIXED=' + ','.join('%dULL' % v for v in vals), '--unwind', '24', '--no-malloc-may-fail', '--drop-unused-functions',
+               '--no-pointer-check', '--no-bounds-check', '--no-div-by-zero-check', '--no-standard-checks', '--verbosity', '9', '--program-only']
+        rc, out, t = sh(cmd, timeout=180, mem_gb=8)
+        loc = {}
+        if rc == 'timeout': return loc
+        for m in re.finditer(r'Unwinding loop (\S+) iteration (\d+)', out):
+            loc[m.group(1)] = max(loc.get(m.group(1), 0), int(m.group(2)))
+        return loc
+    with cf.ThreadPoolExecutor(max_workers=3) as ex:
+        for loc in ex.map(one, picks):
+            for k, v in loc.items(): mx[k] = max(mx.get(k, 0), v)
+    return mx
 
 
 PROP_RE = re.compile(r'^\[([^\]]+)\] (?:line (\d+) )?(.*): (SUCCESS|FAILURE|UNKNOWN)$')
@@ -184,22 +207,18 @@ def parse_cbmc(out):
     return props, traces
 
 
-def run_cbmc(job, wd, tier):
-    dfl = defs_flags(job['defs'])
-    inc = ['-I' + os.path.join(ROOT, 'rt'), '-I' + os.path.join(ROOT, 'harness'), '-DWITNESS']
-    cfiles = [os.path.join(ROOT, 'harness', job['harness']), os.path.join(wd, 'unit.c'), os.path.join(ROOT, 'rt', 'rt.c')]
-    us, nloops = loops_unwindset(job, wd, cfiles + inc, dfl)
-    cmd = ['cbmc'] + cfiles + inc + dfl + CBMC_BASE + ['--unwind', str(job['unwind'])]
+def run_cbmc_once(job, wd, tier, cfiles, inc, dfl, bounds, names, tmo):
+    us = ['%s:%d' % (nm, bounds[nm]) for nm in names if nm in bounds]
+    cmd = ['cbmc'] + cfiles + inc + dfl + CBMC_BASE + ['--unwind', str(job.get('unwind', 1))]
     if us: cmd += ['--unwindset', ','.join(us)]
     solver = job.get('solver', 'cadical')
     if solver == 'kissat': cmd += ['--external-sat-solver', 'kissat']
     else: cmd += ['--sat-solver', solver]
     cmd += job.get('cbmc_extra', [])
-    tmo = job['timeout'][tier] if isinstance(job.get('timeout'), dict) else job.get('timeout', 600)
     rc, out, t = sh(['/usr/bin/time', '-f', 'VERIF_RSS_KB=%M'] + cmd, timeout=tmo, mem_gb=job.get('mem_gb', 14))
     open(os.path.join(wd, 'cbmc.log'), 'w').write(out if isinstance(out, str) else '')
-    res = {'cmd': ' '.join(c.replace(ROOT + '/', '') for c in cmd), 'wall_s': round(t, 1), 'loops': nloops, 'unwind': job['unwind'],
-           'unwindset': us, 'solver': solver}
+    res = {'cmd': ' '.join(c.replace(ROOT + '/', '') for c in cmd if not c.startswith('--unwindset') and ':' not in c[:200] or c.startswith('-')), 'wall_s': round(t, 1),
+           'loops': len(names), 'unwind_default': job.get('unwind', 1), 'unwindset': {k: v for k, v in bounds.items()}, 'solver': solver}
     if rc == 'timeout':
         res['status'] = 'TIMEOUT'; return res
     m = re.search(r'VERIF_RSS_KB=(\d+)', out)
@@ -207,9 +226,7 @@ def run_cbmc(job, wd, tier):
     props, traces = parse_cbmc(out)
     res['n_properties'] = len(props)
     if not props or ('VERIFICATION SUCCESSFUL' not in out and 'VERIFICATION FAILED' not in out):
-        res['status'] = 'ERROR'; res['tail'] = out[-1500:]; return res
-    mv = re.search(r'(\d+) variables, (\d+) clauses', out)
-    if mv: res['sat_vars'] = int(mv.group(1)); res['sat_clauses'] = int(mv.group(2))
+        res['status'] = 'ERROR'; res['tail'] = '\n'.join(l for l in out.split('\n') if not re.search(r'differ between|definition in module|^(void|struct|unsigned|signed) ', l))[-1200:]; return res
     res['by_class'] = {}
     failed = []
     for nm, p in props.items():
@@ -220,6 +237,34 @@ def run_cbmc(job, wd, tier):
     res['traces'] = {nm: traces.get(nm) for nm, p in failed if p['class'] in ('PROP', 'SAFETY')}
     res['prop_descs'] = sorted(set(p['desc'] for p in props.values() if p['class'] == 'PROP'))
     res['status'] = 'DONE'
+    return res
+
+
+def run_cbmc(job, wd, tier, inputs):
+    dfl = defs_flags(job['defs'])
+    inc = ['-I' + os.path.join(ROOT, 'rt'), '-I' + os.path.join(ROOT, 'harness'), '-DWITNESS']
+    cfiles = [os.path.join(ROOT, 'harness', job['harness']), os.path.join(wd, 'unit.c'), os.path.join(ROOT, 'rt', 'rt.c')]
+    names = loop_names(cfiles + inc, dfl)
+    t0 = time.time()
+    hints = profile_bounds(job, wd, inputs, cfiles, inc, dfl)
+    bounds = {nm: hints.get(nm, 0) + 1 + job.get('unwind_margin', 0) for nm in names}
+    for rx, b in job.get('unwind_rules', []):
+        for nm in names:
+            if re.search(rx, nm): bounds[nm] = max(bounds[nm], b)
+    tmo = job['timeout'][tier] if isinstance(job.get('timeout'), dict) else job.get('timeout', 600)
+    rounds = []
+    for rnd in range(job.get('refine_rounds', 5)):
+        res = run_cbmc_once(job, wd, tier, cfiles, inc, dfl, bounds, names, tmo)
+        rounds.append({'wall_s': res['wall_s'], 'status': res['status'], 'rss_mb': res.get('rss_mb')})
+        if res['status'] != 'DONE': break
+        grow = []
+        for nm, cls, desc in res['failed']:
+            m = re.match(r'(.*)\.unwind\.(\d+)$', nm)
+            if cls == 'BOUND' and m: grow.append('%s.%s' % (m.group(1), m.group(2)))
+        if not grow: break
+        for nm in grow: bounds[nm] = bounds.get(nm, 1) + 2   # bound too small: reported by the unwinding assertion, raised, re-run
+        res['refined'] = grow
+    res['rounds'] = rounds; res['t_profile_and_rounds'] = round(time.time() - t0, 1); res['bound_hints_from_concrete_runs'] = len(hints)
     return res
 
 
@@ -270,7 +315,7 @@ def do_job(prop, job, tier, seed, keep):
             path = os.path.join(ROOT, 'replays', '%s-%s-diff-%s.txt' % (prop, job['name'], hashlib.sha1(str(vals).encode()).hexdigest()[:10]))
             bad, rc, out = replay(wd, vals, path)
             if bad: r['violations'].append({'source': 'differential run (random input, real build)', 'desc': v[-200:], 'replay': path, 'replay_out': out[-600:]})
-        c = run_cbmc(job, wd, tier); r['cbmc'] = c
+        c = run_cbmc(job, wd, tier, r['differential'].pop('_inputs', [])); r['cbmc'] = c
         if c['status'] == 'TIMEOUT': raise Inconclusive('solver timeout after %ss (no verdict)' % c['wall_s'])
         if c['status'] == 'ERROR': raise Inconclusive('cbmc error / out of memory: ' + c.get('tail', ''))
         bound = [f for f in c['failed'] if f[1] == 'BOUND']
@@ -361,7 +406,7 @@ def main():
             'technique': 'bounded symbolic execution of the real C++ (clang LLVM IR -> C -> CBMC/SAT), counterexamples replayed on the real build',
             'functions_encoded': funcs,
             'jobs': [{k: r.get(k) for k in ('job', 'status', 'reason', 'defs', 'bounds', 'wall_s', 'differential', 'notes')} | {
-                'cbmc': {k: r['cbmc'].get(k) for k in ('wall_s', 'rss_mb', 'n_properties', 'by_class', 'unwind', 'unwindset', 'solver', 'sat_vars', 'sat_clauses', 'loops', 'status')} if 'cbmc' in r else None,
+                'cbmc': {k: r['cbmc'].get(k) for k in ('wall_s', 'rss_mb', 'n_properties', 'by_class', 'unwind_default', 'unwindset', 'solver', 'loops', 'status', 'rounds', 'bound_hints_from_concrete_runs')} if 'cbmc' in r else None,
                 'translation': {k: r['build'].get(k) for k in ('ir_lines', 'mem_lowering', 't_clang', 't_ll2c', 'externals')} if 'build' in r else None}
                 for r in results],
             'queries_discharged': nq, 'solver_time_s': round(sum(r['cbmc']['wall_s'] for r in done), 1),
